@@ -270,8 +270,36 @@ func randNBT(r *hx.Rng, depth int) []byte { // payload of a compound
 	return b.Bytes()
 }
 
+var outG *hx.Out // for predicates evaluated while generating
+
+// packXZ: the protocol packs the in-chunk coordinates as (x<<4 | z&15) in one byte
+func packXZ(e *level.BlockEntity, x, z int) {
+	before := e.XZ
+	ok := e.PackXZ(x, z)
+	in := x >= 0 && x <= 15 && z >= 0 && z <= 15
+	outG.Eval("packxz", true, fmt.Sprintf("packxz %d %d", x, z))
+	switch {
+	case ok != in:
+		outG.Fail("C13.wire.block-entity-layout", "PackXZ(%d, %d) returned %v", x, z, ok)
+	case !in && e.XZ != before:
+		outG.Fail("C13.wire.block-entity-layout", "a rejected PackXZ(%d, %d) changed XZ", x, z)
+	case in:
+		if uint8(e.XZ) != uint8(x<<4|z&15) {
+			outG.Fail("C13.wire.block-entity-layout", "PackXZ(%d, %d) stored %#02x, the protocol packs x<<4 | z&15 = %#02x", x, z, uint8(e.XZ), uint8(x<<4|z&15))
+		}
+		if ux, uz := e.UnpackXZ(); ux != x || uz != z {
+			outG.Fail("C13.wire.block-entity-layout", "UnpackXZ after PackXZ(%d, %d) gave (%d, %d)", x, z, ux, uz)
+		}
+	}
+}
+
 func randEntity(r *hx.Rng) level.BlockEntity {
 	e := level.BlockEntity{XZ: int8(r.Next()), Y: int16(r.Next()), Type: block.EntityType(r.Intn(300))}
+	if r.Intn(4) != 0 {
+		packXZ(&e, r.Intn(16), r.Intn(16))
+	} else if r.Bool() {
+		packXZ(&e, r.Pick(-1, 16, 0, 7, 255, -16), r.Pick(-1, 16, 3, 15, 1<<40))
+	}
 	switch r.Intn(8) {
 	case 0:
 		// no NBT: written as a lone TAG_End
@@ -535,6 +563,7 @@ func wireCase(o *hx.Out, cat string, src, dst *level.Chunk, tail []byte, pred bo
 	if !pred {
 		return
 	}
+	layoutPred(o, src, img, desc)
 	if int(wn) != len(img) {
 		o.Fail("C13.wire.count", "%s: WriteTo returned %d, wrote %d", desc, wn, len(img))
 	}
@@ -590,6 +619,188 @@ func wireCase(o *hx.Out, cat string, src, dst *level.Chunk, tail []byte, pred bo
 	}
 	if got.status != before.status {
 		o.Fail("C13.wire.frame-status", "%s: status of the destination changed", desc)
+	}
+}
+
+// layoutPred: the bytes Chunk.WriteTo produced, read by the independent reference parser (ref.go), field
+// by field against the chunk
+func layoutPred(o *hx.Out, src *level.Chunk, img []byte, desc string) {
+	rc, perr := refParse(img)
+	if perr != "" || rc.consumed != len(img) {
+		o.Fail("C13.wire.layout", "%s: the reference parser stopped: %s (consumed %d of %d)", desc, perr, rc.consumed, len(img))
+		return
+	}
+	if len(rc.hmNames) != 2 || rc.hmNames[0] != "MOTION_BLOCKING" || rc.hmNames[1] != "WORLD_SURFACE" ||
+		!eqU64(rc.hm["MOTION_BLOCKING"], src.HeightMaps.MotionBlocking.Raw()) || !eqU64(rc.hm["WORLD_SURFACE"], src.HeightMaps.WorldSurface.Raw()) {
+		o.Fail("C13.wire.heightmap-layout", "%s: height maps on the wire %v", desc, rc.hmNames)
+	}
+	if len(rc.ents) != len(src.BlockEntity) {
+		o.Fail("C13.wire.block-entity-layout", "%s: %d block entities on the wire, %d in the chunk", desc, len(rc.ents), len(src.BlockEntity))
+	} else {
+		for i, e := range rc.ents {
+			b := &src.BlockEntity[i]
+			want := []byte{0}
+			if b.Data.Type != 0 {
+				want = append([]byte{b.Data.Type}, b.Data.Data...)
+			}
+			if e.xz != uint8(b.XZ) || e.y != b.Y || e.typ != int(b.Type) || !bytes.Equal(e.nbt, want) {
+				o.Fail("C13.wire.block-entity-layout", "%s: block entity %d on the wire is xz=%#02x y=%d type=%d nbt=%s, the chunk holds xz=%#02x y=%d type=%d nbt=%s",
+					desc, i, e.xz, e.y, e.typ, hx.Hex(e.nbt), uint8(b.XZ), b.Y, b.Type, hx.Hex(want))
+				break
+			}
+		}
+	}
+	// light: sky mask, block mask, empty-sky mask, empty-block mask, sky arrays, block arrays
+	var wantSky, wantBlk [][]byte
+	maskOf := func(get func(*level.Section) []byte, acc *[][]byte) []uint64 {
+		m := make([]uint64, 64)
+		for i := range src.Sections {
+			if a := get(&src.Sections[i]); a != nil {
+				m[i/64] |= 1 << (uint(i) % 64)
+				*acc = append(*acc, a)
+			}
+		}
+		return m
+	}
+	skyM := maskOf(func(s *level.Section) []byte { return s.SkyLight }, &wantSky)
+	blkM := maskOf(func(s *level.Section) []byte { return s.BlockLight }, &wantBlk)
+	eqArrs := func(a, b [][]byte) bool {
+		if len(a) != len(b) {
+			return false
+		}
+		for i := range a {
+			if !bytes.Equal(a[i], b[i]) {
+				return false
+			}
+		}
+		return true
+	}
+	switch {
+	case !eqU64(rc.masks[0], skyM):
+		o.Fail("C13.wire.light-layout", "%s: the first mask is not the sky-light mask of the sections", desc)
+	case !eqU64(rc.masks[1], blkM):
+		o.Fail("C13.wire.light-layout", "%s: the second mask is not the block-light mask of the sections", desc)
+	case !eqArrs(rc.sky, wantSky):
+		o.Fail("C13.wire.light-layout", "%s: the first array list is not the sky-light arrays in section order", desc)
+	case !eqArrs(rc.blk, wantBlk):
+		o.Fail("C13.wire.light-layout", "%s: the second array list is not the block-light arrays in section order", desc)
+	default:
+		for k := 0; k < 64 && k < len(rc.masks[2]) && k < len(rc.masks[3]); k++ {
+			if rc.masks[2][k]&skyM[k] != 0 || rc.masks[3][k]&blkM[k] != 0 {
+				o.Fail("C13.wire.light-layout", "%s: an empty-light mask marks a section that has a light array", desc)
+				break
+			}
+		}
+	}
+}
+
+// refReadCase: a body produced by the reference WRITER read by Chunk.ReadFrom
+func refReadCase(o *hx.Out, r *hx.Rng) {
+	nsec := 1 + r.Intn(6)
+	hb := bits.Len(uint(nsec)*16 + 1)
+	vals := map[string][]int{}
+	hm := map[string][]uint64{}
+	names := []string{"MOTION_BLOCKING", "WORLD_SURFACE"}
+	if r.Bool() {
+		names = []string{"WORLD_SURFACE", "MOTION_BLOCKING"} // a compound has no order
+	}
+	for _, n := range names {
+		v := make([]int, 256)
+		for i := range v {
+			v[i] = r.Intn(1 << hb)
+		}
+		vals[n], hm[n] = v, refPack(v, hb)
+	}
+	secs := make([]refSection, nsec)
+	var masks [4][]uint64
+	for k := range masks {
+		masks[k] = make([]uint64, r.Pick(1, 64))
+	}
+	var sky, blk [][]byte
+	for i := range secs {
+		secs[i] = refSection{count: int16(r.Intn(4097)), state: r.Intn(nStates), biome: r.Intn(nBiomes)}
+		if r.Bool() {
+			masks[0][0] |= 1 << uint(i)
+			sky = append(sky, r.Bytes(2048))
+		} else {
+			masks[2][0] |= 1 << uint(i)
+		}
+		if r.Bool() {
+			masks[1][0] |= 1 << uint(i)
+			blk = append(blk, r.Bytes(2048))
+		} else {
+			masks[3][0] |= 1 << uint(i)
+		}
+	}
+	type xz struct{ x, z int }
+	var ents []refEntity
+	var pos []xz
+	for i := r.Intn(5); i > 0; i-- {
+		p := xz{r.Intn(16), r.Intn(16)}
+		e := refEntity{xz: byte(p.x<<4 | p.z&15), y: int16(r.Next()), typ: r.Intn(300), nbt: []byte{0}}
+		if r.Intn(3) != 0 {
+			e.nbt = append([]byte{10}, randNBT(r, 0)...)
+		}
+		ents, pos = append(ents, e), append(pos, p)
+	}
+	body := refWrite(names, hm, secs, ents, masks, sky, blk)
+	tail := r.Bytes(r.Pick(0, 3))
+	var dst *level.Chunk
+	if r.Bool() {
+		dst = level.EmptyChunk(nsec)
+	} else {
+		dst = randChunk(r, randShape(r, nsec, false))
+	}
+	caseLine := fmt.Sprintf("read %s %s %s", gsgb, hx.Hex(append(append([]byte(nil), body...), tail...)), chunkTok(dst))
+	rd := bytes.NewReader(append(append([]byte(nil), body...), tail...))
+	var rn int64
+	var rerr error
+	p := hx.Try(func() { rn, rerr = dst.ReadFrom(rd) })
+	res := "panic"
+	if p == "" && rerr != nil {
+		res = "err"
+	} else if p == "" {
+		res = fmt.Sprintf("ok %d %d %s", rn, rd.Len(), chunkSer(dst))
+	}
+	o.Case("read.reference", true, caseLine, "read "+res)
+	desc := fmt.Sprintf("reference-written body, %d sections, %d entities", nsec, len(ents))
+	if p != "" || rerr != nil {
+		o.Fail("C13.wire.ref-read", "%s: ReadFrom panic=%q err=%v", desc, p, rerr)
+		return
+	}
+	if int(rn) != len(body) || rd.Len() != len(tail) {
+		o.Fail("C13.wire.ref-read", "%s: %d bytes, ReadFrom returned %d and left %d (tail %d)", desc, len(body), rn, rd.Len(), len(tail))
+	}
+	for i := range secs {
+		sec := &dst.Sections[i]
+		if int(sec.BlockCount) != int(secs[i].count) || int(sec.GetBlock(0)) != secs[i].state || int(sec.GetBlock(4095)) != secs[i].state || int(sec.Biomes.Get(63)) != secs[i].biome {
+			o.Fail("C13.wire.ref-read", "%s: section %d does not hold what the body says", desc, i)
+			break
+		}
+	}
+	for k, n := range map[string]*level.BitStorage{"MOTION_BLOCKING": dst.HeightMaps.MotionBlocking, "WORLD_SURFACE": dst.HeightMaps.WorldSurface} {
+		for j := 0; j < 256; j++ {
+			if n.Get(j) != vals[k][j] {
+				o.Fail("C13.wire.heightmap-layout", "%s: %s[%d] is %d, the body says %d", desc, k, j, n.Get(j), vals[k][j])
+				break
+			}
+		}
+	}
+	if len(dst.BlockEntity) != len(ents) {
+		o.Fail("C13.wire.block-entity-layout", "%s: %d entities read", desc, len(dst.BlockEntity))
+		return
+	}
+	for i, e := range ents {
+		b := &dst.BlockEntity[i]
+		x, z := b.UnpackXZ()
+		got := []byte{0}
+		if b.Data.Type != 0 {
+			got = append([]byte{b.Data.Type}, b.Data.Data...)
+		}
+		if x != pos[i].x || z != pos[i].z || b.Y != e.y || int(b.Type) != e.typ || !bytes.Equal(got, e.nbt) {
+			o.Fail("C13.wire.block-entity-layout", "%s: entity %d written at x=%d z=%d y=%d type=%d is read as x=%d z=%d y=%d type=%d", desc, i, pos[i].x, pos[i].z, e.y, e.typ, x, z, b.Y, b.Type)
+			break
+		}
 	}
 }
 
@@ -709,6 +920,152 @@ func fromSaveCaseE(o *hx.Out, cat string, s *save.Chunk) (*level.Chunk, string) 
 		}
 	}
 	return c, ""
+}
+
+// an NBT compound {id, x, y, z (+ keepPacked, Items...)} written byte by byte
+func saveEntityNBT(r *hx.Rng, id string, x, y, z int32, broken int) nbt.RawMessage {
+	var b bytes.Buffer
+	str := func(s string) { b.Write([]byte{byte(len(s) >> 8), byte(len(s))}); b.WriteString(s) }
+	i32 := func(name string, v int32) {
+		b.WriteByte(3)
+		str(name)
+		b.Write([]byte{byte(v >> 24), byte(v >> 16), byte(v >> 8), byte(v)})
+	}
+	if r.Bool() {
+		b.WriteByte(1)
+		str("keepPacked")
+		b.WriteByte(0)
+	}
+	i32("x", x)
+	if broken == 1 { // y as a string: Unmarshal fails
+		b.WriteByte(8)
+		str("y")
+		str("high")
+	} else {
+		i32("y", y)
+	}
+	i32("z", z)
+	b.WriteByte(8)
+	str("id")
+	str(id)
+	b.WriteByte(0)
+	return nbt.RawMessage{Type: nbt.TagCompound, Data: b.Bytes()}
+}
+
+// saveEntityCase: ChunkFromSave on a save chunk with block entities (inside the chunk, on its border, outside,
+// undecodable), then the network round trip of the result: positions, height, type and data preserved
+func saveEntityCase(o *hx.Out, r *hx.Rng, k int) {
+	c := randChunk(r, randShape(r, 1, false))
+	s := &save.Chunk{YPos: int32(r.Pick(0, -4)), XPos: int32(r.Pick(0, 1, -1, 7, -300, 1875000)), ZPos: int32(r.Pick(0, -1, 2, 99, -1875000))}
+	if err := level.ChunkToSave(c, s); err != nil {
+		return
+	}
+	ids := []string{"minecraft:chest", "minecraft:furnace", "minecraft:sign", "minecraft:no_such_entity", ""}
+	type want struct {
+		lx, lz int
+		y      int32
+		id     string
+	}
+	var wants []want
+	bad := ""
+	n := r.Pick(1, 1, 2, 4)
+	var line sb
+	for i := 0; i < n; i++ {
+		w := want{lx: r.Intn(16), lz: r.Intn(16), y: int32(r.Pick(-64, 0, 70, 319, 40000, -40000)), id: ids[r.Intn(len(ids))]}
+		broken := 0
+		if k%5 == 3 && i == n-1 {
+			w.lx = r.Pick(-1, 16, 31, -16)
+			bad = "outside"
+		}
+		if k%5 == 4 && i == n-1 {
+			w.lz = r.Pick(-1, 16)
+			bad = "outside"
+		}
+		if k%7 == 6 && i == 0 {
+			broken, bad = 1, "undecodable"
+		}
+		x, z := s.XPos*16+int32(w.lx), s.ZPos*16+int32(w.lz)
+		raw := saveEntityNBT(r, w.id, x, w.y, z, broken)
+		s.BlockEntities = append(s.BlockEntities, raw)
+		wants = append(wants, w)
+		// what the library's own struct decoding and table give travels to the model
+		var tmp struct {
+			ID string `nbt:"id"`
+			X  int32  `nbt:"x"`
+			Y  int32  `nbt:"y"`
+			Z  int32  `nbt:"z"`
+		}
+		ok := 0
+		if raw.Unmarshal(&tmp) == nil {
+			ok = 1
+		}
+		line.int(int(raw.Type))
+		line.add(hx.Hex(raw.Data))
+		line.int(ok)
+		line.add(hx.Hex([]byte(tmp.ID)))
+		line.int(int(tmp.X))
+		line.int(int(tmp.Y))
+		line.int(int(tmp.Z))
+		line.int(int(block.EntityTypes[tmp.ID]))
+	}
+	caseLine := fmt.Sprintf("fromsavee %s %d %d %d %s%s", gsgb, s.XPos, s.ZPos, n, line.String(), schunkTok(s))
+	var lc *level.Chunk
+	var err error
+	p := hx.Try(func() { lc, err = level.ChunkFromSave(s) })
+	desc := fmt.Sprintf("save chunk at (%d, %d) with %d block entities (%s)", s.XPos, s.ZPos, n, bad)
+	switch {
+	case p != "":
+		o.Case("fromsave.entities", true, caseLine, "fromsavee panic")
+		o.Fail("C13.save.entities", "%s: ChunkFromSave panicked: %s", desc, p)
+		return
+	case err != nil:
+		o.Case("fromsave.entities", true, caseLine, "fromsavee err")
+		if bad == "" {
+			o.Fail("C13.save.entities", "%s: ChunkFromSave failed: %v", desc, err)
+		}
+		return
+	}
+	var bs, bh, be sb
+	for i := range lc.Sections {
+		bs.sect(&lc.Sections[i])
+	}
+	bh.hm(&lc.HeightMaps)
+	for i := range lc.BlockEntity {
+		be.be(&lc.BlockEntity[i])
+	}
+	o.Case("fromsave.entities", true, caseLine, fmt.Sprintf("fromsavee ok %d:%s hm:%s st:%s %d:%s", len(lc.Sections), md5hex(bs.String()), md5hex(bh.String()),
+		hx.Hex([]byte(lc.Status)), len(lc.BlockEntity), md5hex(be.String())))
+	if bad != "" {
+		o.Fail("C13.save.entities", "%s: ChunkFromSave accepted it", desc)
+		return
+	}
+	check := func(stage string, es []level.BlockEntity) {
+		if len(es) != len(wants) {
+			o.Fail("C13.save.entities", "%s: %d entities %s", desc, len(es), stage)
+			return
+		}
+		for i, w := range wants {
+			e := &es[i]
+			x, z := e.UnpackXZ()
+			if x != w.lx || z != w.lz || e.Y != int16(w.y) || e.Type != block.EntityTypes[w.id] || e.Data.Type != s.BlockEntities[i].Type || !bytes.Equal(e.Data.Data, s.BlockEntities[i].Data) {
+				o.Fail("C13.save.entities", "%s: entity %d saved at local (%d, %d) y=%d id=%q is (%d, %d) y=%d type=%d %s", desc, i, w.lx, w.lz, w.y, w.id, x, z, e.Y, e.Type, stage)
+				return
+			}
+		}
+	}
+	check("after ChunkFromSave", lc.BlockEntity)
+	// and through the network form
+	var buf bytes.Buffer
+	if _, err := lc.WriteTo(&buf); err != nil {
+		o.Fail("C13.save.entities", "%s: WriteTo of the loaded chunk: %v", desc, err)
+		return
+	}
+	back := randChunk(r, randShape(r, len(lc.Sections), false))
+	if _, err := back.ReadFrom(bytes.NewReader(buf.Bytes())); err != nil {
+		o.Fail("C13.save.entities", "%s: ReadFrom of the loaded chunk: %v", desc, err)
+		return
+	}
+	check("after the network round trip", back.BlockEntity)
 }
 
 // reference packing of the save format, written from its definition: indices into the palette,
@@ -1150,6 +1507,7 @@ func main() {
 		return
 	}
 	gsgb = fmt.Sprintf("%d %d", block.BitsPerBlock, biome.BitsPerBiome)
+	outG = o
 
 	// --- network form
 	secsList := []int{1, 2, 3, 4, 5, 8, 15, 16, 17, 24}
@@ -1199,6 +1557,10 @@ func main() {
 			dst.HeightMaps.WorldSurfaceWG = nil
 		}
 		wireCase(o, "wire.mismatch", src, dst, nil, false, "")
+	}
+	// bodies written by the independent reference writer
+	for i := 0; i < o.N(40, 6); i++ {
+		refReadCase(o, r)
 	}
 	// damaged streams
 	for i := 0; i < o.N(160, 8); i++ {
@@ -1271,6 +1633,11 @@ func main() {
 		if !strings.Contains(why, "out of bounds") {
 			o.Fail("C13.save.from-bounds", "section Y %d outside the chunk (YPos %d, %d sections): ChunkFromSave gave %q, an error is expected", s.Sections[0].Y, s.YPos, len(s.Sections), why)
 		}
+	}
+
+	// --- the block entities of ChunkFromSave
+	for i := 0; i < o.N(40, 6); i++ {
+		saveEntityCase(o, r, i)
 	}
 
 	// --- the counter
